@@ -50,6 +50,14 @@ class AbstractSpecification(object):
         self.ast.spec = spec
 
     # forwarding to ast
+    @property
+    def unit(self):
+        return self.ast.unit
+
+    @unit.setter
+    def unit(self, unit):
+        self.ast.unit = unit
+
     def add_var(self, var):
         self.ast.vars.add(var)
 
